@@ -14,8 +14,8 @@ FEAT="--features cluster"; [ "$CRATE" != "ractor" ] && FEAT=""
 echo "== build with change"; cargo build --offline -p $CRATE $FEAT 2>&1 | tail -2
 echo "== lib tests with change"; timeout 1500 cargo test --offline -p $CRATE $FEAT --lib 2>&1 | grep -E "^test result|FAILED|failed" | head -5
 echo "== demo with change (expect failure)"; for i in 1 2; do timeout 600 cargo test --offline -p $CRATE $FEAT --test $DEMO 2>&1 | grep -E "^test result" ; done
-git stash push -q -- ractor/src ractor_cluster/src ractor_cluster_derive/src
+git apply -R $OUT/patch.diff   # (no git stash: the stash ref is shared by all worktrees)
 echo "== demo without change (expect pass)"; for i in 1 2; do timeout 600 cargo test --offline -p $CRATE $FEAT --test $DEMO 2>&1 | grep -E "^test result" ; done
-git stash pop -q
+git apply $OUT/patch.diff
 } > $OUT/confirm.log 2>&1
 cat $OUT/confirm.log
